@@ -369,6 +369,9 @@ func DNSCaching(ttl time.Duration) func(*Attacker) {
 				// Pick a random IP from each IP family and dial each concurrently.
 				// The first that succeeds wins, the other gets canceled.
 
+				// The slice returned by LookupHost is owned by the resolver's cache,
+				// so shuffle a copy of it.
+				ips = append([]string(nil), ips...)
 				rng.Shuffle(len(ips), func(i, j int) { ips[i], ips[j] = ips[j], ips[i] })
 
 				ips = firstOfEachIPFamily(ips)
@@ -412,7 +415,7 @@ func firstOfEachIPFamily(ips []string) []string {
 
 	var (
 		lastV4 bool
-		each   = ips[:0]
+		each   = make([]string, 0, 2)
 	)
 
 	for i := 0; i < len(ips) && len(each) < 2; i++ {
